@@ -7,14 +7,18 @@
    Output {"ok":true,"buffers":{"<register>":[bytes]},"globals":[[name,value]...]}
         | {"ok":false,"kind":"fail"|"outoffuel"|"decode","msg":...}
    mode "template": {"template": expr, "helpers": [func...], "args": [[name, type, value]...], "fuel": n} -> {"ok":true,"value":v}
-   (evaluates one expression with the named operands bound: used by the search when the op-table tie breaks). *)
-From Coq Require Import List ZArith String.
+   (evaluates one expression with the named operands bound: used by the search when the op-table tie breaks).
+   mode "rows": {"rows": [{"op","ty","shape","template","helpers"}...]} -> {"ok":true,"stray":[[op,ty,shape]...],
+        "catalogue":[[op,ty,status]...]}: the probed rows that are not catalogue entries (Hlsl/OpTable.v decides the same
+        question inside Coq; this copy only names the culprits for the report). *)
+From Coq Require Import List ZArith String Bool.
 Import ListNotations.
-Require Import Naga.Base.Json Naga.IR.Values Naga.Hlsl.Syntax Naga.Hlsl.Decode Naga.Hlsl.Ops Naga.Hlsl.Sem.
+Require Import Naga.Base.Json Naga.IR.Values Naga.Hlsl.Syntax Naga.Hlsl.Decode Naga.Hlsl.Ops Naga.Hlsl.Sem Naga.Hlsl.Catalogue.
 Require Extraction.
 Require Import ExtrOcamlBasic.
 Open Scope string_scope.
 Open Scope list_scope.
+Open Scope bool_scope.
 
 Definition err (kind msg : string) : json := JObj [("ok", JBool false); ("kind", JStr kind); ("msg", JStr msg)].
 
@@ -83,9 +87,38 @@ Definition run_template (j : json) : json :=
   | _, _, _, _ => err "decode" "missing template/helpers/args/fuel"
   end.
 
+Definition status_name (s : status) : string :=
+  match s with Proved => "Proved" | Refuted => "Refuted" | Shapes => "Shapes" | Validated => "Validated" | Unmodelled => "Unmodelled" end.
+
+Definition row_stray (j : json) : res (option (list json)) :=
+  match field_str "op" j, field_str "ty" j, field_str "shape" j, field "template" j, field_arr "helpers" j with
+  | Some op, Some ty, Some sh, Some tj, Some hs =>
+    match dec_expr 400 tj, map_res dec_func hs with
+    | Ok e, Ok funcs =>
+      if existsb (fun c => String.eqb (e_op c) op && String.eqb (e_ty c) ty && expr_eqb (e_template c) e && funcs_eqb (e_helpers c) funcs) catalogue
+      then Ok None else Ok (Some [JStr op; JStr ty; JStr sh])
+    | Err m, _ => Err m
+    | _, Err m => Err m
+    end
+  | _, _, _, _, _ => Err "row record"
+  end.
+
+Definition run_rows (rows : list json) : json :=
+  match map_res row_stray rows with
+  | Err m => err "decode" m
+  | Ok l =>
+    JObj [("ok", JBool true);
+          ("stray", JArr (flat_map (fun o => match o with Some x => [JArr x] | None => [] end) l));
+          ("catalogue", JArr (map (fun c => JArr [JStr (e_op c); JStr (e_ty c); JStr (status_name (e_status c))]) catalogue))]
+  end.
+
 Definition entry (j : json) : json :=
-  match field "template" j with
-  | Some _ => run_template j
-  | None => run_program j
+  match field_arr "rows" j with
+  | Some rows => run_rows rows
+  | None =>
+    match field "template" j with
+    | Some _ => run_template j
+    | None => run_program j
+    end
   end.
 Extraction "model.ml" entry.
